@@ -225,6 +225,7 @@ def runModel (st : St) (op impl : List String) : Option (St × String) :=
         let w : World := p.pending.foldl (fun w j => w.enq j p.act) w
         some (observe st w "ok")
     | _, _ => none
+  | ["fault", b] => some ({ st with w := { w with storeFault := b = "1" } }, "ok")
   | ["probe"] => some (st, probeStr w)
   | ["fix", flags] =>
     -- not produced by the harness: lets a trace be replayed against a model with some repairs switched on
